@@ -23,7 +23,8 @@ ErrClasses == {"shutdown", "net", "timeout", "lib"}
 
 ObsSubmit(o, e) ==
   [o EXCEPT !.rq = Put(@, e.q, [other |-> e.x = "other", st |-> "out", cls |-> "", at |-> 0, sub |-> e.t,
-                                late |-> (e.x # "other" /\ o.shutAt >= 0)])]
+                                late |-> (e.x # "other" /\ o.shutAt >= 0),
+                                observing |-> (e.obs = 0), obsEnded |-> FALSE])]
 
 ObsDone(o, e) ==
   IF ~Has(o.rq, e.q) THEN o
@@ -35,6 +36,12 @@ ObsDone(o, e) ==
            o3 == FlagIf(o2, ~s.other /\ ~s.late /\ o.shutAt >= 0 /\ e.cls \notin ErrClasses, "C18_AllPendingFail")
            o4 == FlagIf(o3, s.other /\ e.cls # "resp", "C18_OtherContextUnaffected")
        IN o4
+
+\* the observation of request q ended (errback): with a library error when it is the shutdown that ends it
+ObsObsEnd(o, e) ==
+  IF ~Has(o.rq, e.q) THEN o
+  ELSE FlagIf([o EXCEPT !.rq[e.q].obsEnded = TRUE],
+              ~o.rq[e.q].other /\ o.shutAt >= 0 /\ e.cls \notin ErrClasses, "C18_AllPendingFail")
 
 ObsCall(o, e) == [o EXCEPT !.hd = Put(@, e.inv, "running")]
 ObsRelease(o, e) == IF Has(o.hd, e.inv) THEN [o EXCEPT !.hd[e.inv] = "finished"] ELSE o
@@ -57,13 +64,16 @@ ObsEnd(o, e) ==
            o3 == FlagIf(o2, \E q \in DOMAIN o.rq : ~o.rq[q].other /\ ~o.rq[q].late /\ o.rq[q].st = "done"
                                                   /\ o.rq[q].at > o.shutAt + ShutdownTimeout /\ o.rq[q].sub <= o.shutAt,
                         "C18_AllPendingFail")
-           o4 == FlagIf(o3, \E i \in DOMAIN o.hd : o.hd[i] = "running", "C18_HandlersCancelled")
+           o3b == FlagIf(o3, \E q \in DOMAIN o.rq : ~o.rq[q].other /\ ~o.rq[q].late /\ o.rq[q].observing
+                                                   /\ ~o.rq[q].obsEnded, "C18_AllPendingFail")
+           o4 == FlagIf(o3b, \E i \in DOMAIN o.hd : o.hd[i] = "running", "C18_HandlersCancelled")
            o5 == FlagIf(o4, \E q \in DOMAIN o.rq : o.rq[q].other /\ o.rq[q].st = "out", "C18_OtherContextUnaffected")
        IN o5
 
 ObsEvent(o, e) ==
   CASE e.k = "submit"        -> ObsSubmit(o, e)
     [] e.k = "done"          -> ObsDone(o, e)
+    [] e.k = "obsend"        -> ObsObsEnd(o, e)
     [] e.k = "call"          -> ObsCall(o, e)
     [] e.k = "release"       -> ObsRelease(o, e)
     [] e.k = "cancelled"     -> ObsCancelled(o, e)
